@@ -274,3 +274,53 @@ def grow_positions(rng, n, edges, bond=0.15, min_dist=0.03):
         pos[v] = cand
         placed.append(cand)
     return [list(map(float, p)) for p in pos]
+
+
+# --------------------------------------------------------------------------
+# file text for species / systems (used by the system, pipeline, cli and alias engines)
+# --------------------------------------------------------------------------
+
+def itp_text(spec, comments=True):
+    """Plain .itp text for a molecule spec (atoms numbered 1..n, all bonds in [ bonds ])."""
+    out = []
+    if comments:
+        out.append("; generated topology for %s" % spec["name"])
+    out += ["[ moleculetype ]", "; Name nrexcl", "%s 1" % spec["name"], "", "[ atoms ]"]
+    if comments:
+        out.append(";   nr  type  resnr residue  atom   cgnr     charge       mass")
+    for i, (an, rn, ri) in enumerate(zip(spec["atom_names"], spec["resnames"], spec["resids"])):
+        out.append("%6d %6s %5d %6s %6s %5d %8.4f %8.4f" % (i + 1, "T" + an[:3], ri, rn, an, i + 1, 0.0, 12.011))
+    out.append("")
+    if spec["edges"]:
+        out.append("[ bonds ]")
+        for i, j in spec["edges"]:
+            out.append("%5d %5d 1 0.15 1000.0" % (i + 1, j + 1))
+        out.append("")
+    return "\n".join(out) + "\n"
+
+
+def gro_atom_lines(spec, positions, first_resid, first_atomid, velocities=None):
+    """Fixed-width atom lines of one molecule instance; residue numbers first_resid, first_resid+1, ... per residue."""
+    lines = []
+    r = -1
+    prev = None
+    for i, (an, rn, ri) in enumerate(zip(spec["atom_names"], spec["resnames"], spec["resids"])):
+        if (rn, ri) != prev:
+            r += 1
+            prev = (rn, ri)
+        l = "%5d%-5s%5s%5d%8.3f%8.3f%8.3f" % ((first_resid + r) % 100000, rn, an, (first_atomid + i) % 100000,
+                                             positions[i][0], positions[i][1], positions[i][2])
+        if velocities is not None:
+            l += "%8.4f%8.4f%8.4f" % tuple(velocities[i])
+        lines.append(l)
+    return lines, r + 1
+
+
+def gro_text(title, atom_lines, box):
+    b = list(box)
+    return title + "\n" + "%5d\n" % len(atom_lines) + "\n".join(atom_lines) + ("\n" if atom_lines else "") + \
+        " ".join("%10.5f" % x for x in b) + "\n"
+
+
+def round3(pos):
+    return [[round(float(x), 3) for x in p] for p in pos]
